@@ -99,6 +99,13 @@ func brRun(thr int, steps []brStep) brResult {
 	var obs []string
 	var hist []specEv
 	model = append(model, "br", strconv.Itoa(thr), strconv.FormatInt(int64(brWindow), 10))
+	// calls in flight (ops B<k> / E<k>ok / E<k>fail): a call that has been admitted and whose protected function
+	// has not returned yet.  Being admitted is an observation; the outcome is reported when the function returns.
+	type openCall struct {
+		result chan error // the harness decides the outcome
+		done   chan error // what Call returned
+	}
+	open := map[string]*openCall{}
 	for i, s := range steps {
 		if s.sleepTenths > 0 {
 			time.Sleep(brWindow * time.Duration(s.sleepTenths) / 10)
@@ -130,6 +137,59 @@ func brRun(thr int, steps []brStep) brResult {
 			obs = append(obs, "-")
 			hist = append(hist, specEv{"success", t})
 		default:
+			if s.op[0] == 'B' {
+				isOpen := specOpen(thr, hist, t)
+				oc := &openCall{result: make(chan error, 1), done: make(chan error, 1)}
+				entered := make(chan struct{}, 1)
+				go func() {
+					oc.done <- cb.Call(func() error { entered <- struct{}{}; return <-oc.result }, 0)
+				}()
+				admitted := false
+				select {
+				case <-entered:
+					admitted = true
+					open[s.op[1:]] = oc
+				case err := <-oc.done:
+					if err != client.ErrBreakerOpen {
+						res.fails = append(res.fails, fmt.Sprintf("step %d: refused call returned %v, want ErrBreakerOpen", i, err))
+					}
+				case <-time.After(3 * time.Second):
+					res.fails = append(res.fails, fmt.Sprintf("step %d: Call neither ran its function nor returned", i))
+				}
+				model = append(model, fmt.Sprintf("R@%d", t))
+				if admitted {
+					obs = append(obs, "r1")
+				} else {
+					obs = append(obs, "r0")
+				}
+				if admitted == isOpen {
+					res.fails = append(res.fails, fmt.Sprintf("step %d: protected function invoked=%v but the trace says open=%v", i, admitted, isOpen))
+				}
+				hist = append(hist, specEv{"obs", t})
+				res.nontrivial = true
+				continue
+			}
+			if s.op[0] == 'E' {
+				k := strings.TrimSuffix(strings.TrimSuffix(s.op[1:], "ok"), "fail")
+				oc := open[k]
+				if oc == nil {
+					continue // the call was refused: nothing ends
+				}
+				delete(open, k)
+				if strings.HasSuffix(s.op, "ok") {
+					oc.result <- nil
+					<-oc.done
+					model = append(model, fmt.Sprintf("S@%d", t))
+					hist = append(hist, specEv{"success", t})
+				} else {
+					oc.result <- errors.New("boom")
+					<-oc.done
+					model = append(model, fmt.Sprintf("F@%d", t))
+					hist = append(hist, specEv{"fail", t})
+				}
+				obs = append(obs, "-")
+				continue
+			}
 			open := specOpen(thr, hist, t)
 			var invoked int32
 			var d time.Duration
@@ -184,6 +244,9 @@ func brRun(thr int, steps []brStep) brResult {
 				time.Sleep(30 * time.Millisecond) // let the abandoned function finish
 			}
 		}
+	}
+	for _, oc := range open {
+		oc.result <- nil
 	}
 	res.model = strings.Join(model, " ")
 	res.obs = strings.Join(obs, " ")
@@ -356,6 +419,41 @@ func runC18(r *common.Rand, tier string, o *common.Out, replay string) {
 			st = append(st, brStep{sleeps[r.Intn(len(sleeps))], ops[r.Intn(len(ops))]})
 		}
 		jobs = append(jobs, job{fmt.Sprintf("t%d", i), thr, st, false})
+	}
+	// calls in flight at the same time: begun (admitted or refused), ended later with their outcome, in any order
+	no := 120
+	if tier == "thorough" {
+		no = 2500
+	}
+	for i := 0; i < no; i++ {
+		thr := 1 + r.Intn(3)
+		var st []brStep
+		var inflight []string
+		next := 0
+		for k := 0; k < 4+r.Intn(8); k++ {
+			sl := []int{0, 0, 0, 0, 6, 15}[r.Intn(6)]
+			switch {
+			case len(inflight) < 3 && r.Chance(45):
+				st = append(st, brStep{sl, fmt.Sprintf("B%d", next)})
+				inflight = append(inflight, strconv.Itoa(next))
+				next++
+			case len(inflight) > 0 && r.Chance(70):
+				j := r.Intn(len(inflight))
+				res := "fail"
+				if r.Chance(35) {
+					res = "ok"
+				}
+				st = append(st, brStep{sl, "E" + inflight[j] + res})
+				inflight = append(inflight[:j], inflight[j+1:]...)
+			default:
+				st = append(st, brStep{sl, []string{"R", "R", "Cfail", "Cok"}[r.Intn(4)]})
+			}
+		}
+		for _, k := range inflight {
+			st = append(st, brStep{0, "E" + k + "fail"})
+		}
+		st = append(st, brStep{0, "R"})
+		jobs = append(jobs, job{fmt.Sprintf("o%d", i), thr, st, false})
 	}
 	nx := 60
 	if tier == "thorough" {
